@@ -40,7 +40,19 @@ type Run struct {
 func (f *Run) Call(s *slip.Scope, args slip.List, depth int) (result slip.Object) {
 	slip.CheckArgCount(s, depth, f, args, 1, 1)
 	if args[0] != nil {
+		// The form is evaluated in the caller's scope so from here on the
+		// scope and all the scopes it can see are shared between routines.
+		synchronizeScopes(s)
 		go func() { _ = args[0].Eval(s, depth) }()
 	}
 	return slip.Novalue
+}
+
+func synchronizeScopes(s *slip.Scope) {
+	if !s.Synchronized() {
+		s.SetSynchronized(true)
+	}
+	for _, p := range s.Parents() {
+		synchronizeScopes(p)
+	}
 }
